@@ -84,7 +84,8 @@ class C15(Prop):
             'prefix); for every save of a sequence the two variants of the sequence in which that save is interrupted after '
             'its 1st / 2nd bucket mutation, the variant in which the store REFUSES its 2nd put (an error answer: the saving code\'s own '
             'handlers run; also on re-saves of stored recordings) and the two in which it refuses the put of the full object; ~12% of the sequences save a recording, delete it by closing a transient cassette on '
-            'its key prefix and save the very same recording again through the same cassette object; rarely (~3% of the sequences) a default-prefix cassette next to one with prefix '
+            'its key prefix and save the very same recording again through the same cassette object; three sequences close a transient '
+            'cassette, use it again and close it again; foreign objects include neighbours whose keys only begin like the cassette\'s folders; rarely (~3% of the sequences) a default-prefix cassette next to one with prefix '
             "'full' / 'metadata' (known finding K8); a case is non-trivial when it logged a mutation or refused a write; "
             'distinct = distinct canonical case')
     TRUSTED = ['correspondence harness harness/props/c15.py + Lean driver (Drive/S3.lean, handler c15.run)',
